@@ -81,6 +81,24 @@ def extract_steps(trace):
                                     construct="%s between [%s] and [%s]" % (mid[0].stmt_text(), w1.stmt_text(), w2.stmt_text())))
         wl, wp = (w1, w2) if w1.field == "children" else (w2, w1)
         x, p = wp.recv, wl.recv
+        # the raw list used for the write must have been read after the last piece of user code:
+        # a hook that edits the parent's children replaces the list object, so an alias taken
+        # before the hook is stale and the node is appended to / removed from a dead list
+        k_read = None
+        for k in range(min(i, j) - 1, -1, -1):
+            ev = trace[k]
+            if ev.kind == "LISTREAD" and ev.recv == p:
+                k_read = k
+                break
+            if ev.kind == "WRITE" and ev.field == "children" and ev.recv == p:
+                break
+        if k_read is not None:
+            stale = [ev for ev in trace[k_read + 1:min(i, j)] if ev.kind in ("HOOK", "UNKNOWNCALL", "REENTER", "USERITER")]
+            if stale:
+                problems.append(Problem("W2", stale[0], "user code (%s) runs between reading the parent's children list and the link "
+                                        "write that uses it: if it changes that parent's children the write goes to a stale list and "
+                                        "the two directions of the link disagree" % stale[0].brief(),
+                                        construct="%s between list read and [%s]" % (stale[0].stmt_text(), wl.stmt_text())))
         val = wl.value
         before = _cur_list(store, p)
         kind = None
@@ -412,6 +430,13 @@ class MixinAnalysis:
                 # a compensation ran (and, on this trace, succeeded): which writes does it not cover?
                 h = handler[0]
                 restored_recv = h.recv
+                val = h.args[0] if h.args else None
+                if not (val is not None and val[0] == "snapshot" and val[1] == restored_recv and val[2] == 0):
+                    out.setdefault(("A2i", h.func.where, "%s|value" % h.stmt_text()), (Problem(
+                        "A2i", h, "the rollback assigns %s, which is not a copy of the node's children taken before the change "
+                        "(it aliases the live list / was taken after a write): the former children are not restored" % label(val),
+                        construct="%s [rollback value %s is not a pre-change snapshot]" % (h.stmt_text(), label(val))), name, trace))
+                    continue
                 leftover = []
                 for w in writes:
                     if w.field == "children" and w.recv == restored_recv:
